@@ -19,6 +19,7 @@ import (
 	"massnet.org/mass-wallet/masswallet/keystore"
 )
 
+//go:norace
 func init() {
 	Runners["C02"] = func(w *World, p map[string]int) { runSpend(w, p, "C02") }
 	Runners["C03"] = func(w *World, p map[string]int) { runSpend(w, p, "C03") }
@@ -37,6 +38,7 @@ type spendCtx struct {
 	reserved  map[wire.OutPoint]time.Time
 }
 
+//go:norace
 func newSpendCtx(w *World, inst *Instance, ws *WalletState, reserved map[wire.OutPoint]time.Time, class string) *spendCtx {
 	l := w.CheckWallet(inst, ws, class)
 	if l == nil || len(w.Violations) > 0 {
@@ -63,6 +65,8 @@ func newSpendCtx(w *World, inst *Instance, ws *WalletState, reserved map[wire.Ou
 }
 
 // isReserved: the draft that reserved op is certainly still outstanding.
+//
+//go:norace
 func (c *spendCtx) isReserved(op wire.OutPoint) bool {
 	exp, ok := c.reserved[op]
 	return ok && time.Now().Before(exp)
@@ -70,6 +74,8 @@ func (c *spendCtx) isReserved(op wire.OutPoint) bool {
 
 // maybeReserved also counts the exact expiry instant (the boundary is not
 // specified, so neither answer is demanded there).
+//
+//go:norace
 func (c *spendCtx) maybeReserved(op wire.OutPoint) bool {
 	exp, ok := c.reserved[op]
 	return ok && !time.Now().After(exp)
@@ -77,6 +83,8 @@ func (c *spendCtx) maybeReserved(op wire.OutPoint) bool {
 
 // eligible lists the coins automatic selection may use (optionally only those
 // of one address), largest first.
+//
+//go:norace
 func (c *spendCtx) eligible(from string) []*Coin {
 	var out []*Coin
 	for _, coin := range c.l.Coins {
@@ -97,6 +105,7 @@ func (c *spendCtx) eligible(from string) []*Coin {
 	return out
 }
 
+//go:norace
 func decodeTxHex(s string) (*wire.MsgTx, error) {
 	raw, err := hex.DecodeString(s)
 	if err != nil {
@@ -117,6 +126,8 @@ type wantOut struct {
 // checkBuilt verifies a transaction the wallet built. auto: inputs were chosen
 // by the wallet. wantOuts: the requested outputs (exact scripts and amounts).
 // changeAddr: requested change address ("" = address of the first input).
+//
+//go:norace
 func (c *spendCtx) checkBuilt(class, what string, tx *wire.MsgTx, fee massutil.Amount, auto bool, from string, wantOuts []wantOut, changeAddr string, userFee int64, lockTime uint64, explicit []wire.OutPoint) bool {
 	w := c.w
 	bad := func(kind, format string, a ...interface{}) bool {
@@ -247,6 +258,8 @@ func (c *spendCtx) checkBuilt(class, what string, tx *wire.MsgTx, fee massutil.A
 }
 
 // sign calls SignRawTx on a copy.
+//
+//go:norace
 func (c *spendCtx) sign(tx *wire.MsgTx, pass, flag string) (*wire.MsgTx, error) {
 	cp := copyTx(tx)
 	var out []byte
@@ -268,6 +281,7 @@ func (c *spendCtx) sign(tx *wire.MsgTx, pass, flag string) (*wire.MsgTx, error) 
 	return &stx, nil
 }
 
+//go:norace
 func copyTx(tx *wire.MsgTx) *wire.MsgTx {
 	b, _ := tx.Bytes(wire.Packet)
 	var cp wire.MsgTx
@@ -276,6 +290,8 @@ func copyTx(tx *wire.MsgTx) *wire.MsgTx {
 }
 
 // checkSigned verifies C03's positive clause for a signed transaction.
+//
+//go:norace
 func (c *spendCtx) checkSigned(class string, orig, signed *wire.MsgTx, prev func(wire.OutPoint) (*wire.TxOut, uint64, bool)) bool {
 	w := c.w
 	bad := func(kind, format string, a ...interface{}) bool {
@@ -333,6 +349,7 @@ func (c *spendCtx) checkSigned(class string, orig, signed *wire.MsgTx, prev func
 
 var sigFlags = []string{"ALL", "NONE", "SINGLE", "ALL|ANYONECANPAY", "NONE|ANYONECANPAY", "SINGLE|ANYONECANPAY"}
 
+//go:norace
 func runSpend(w *World, p map[string]int, prop string) {
 	t := w.Plan
 	k := drawKnobs(w)
@@ -417,6 +434,8 @@ func runSpend(w *World, p map[string]int, prop string) {
 
 // fanout mines a transaction with several hundred small outputs to one wallet
 // address so that automatic selection meets the standard-size input cap.
+//
+//go:norace
 func fanout(w *World, t *Tape, inst *Instance) {
 	ids := inst.SortedWalletIDs()
 	ws := inst.Wallets[ids[0]]
@@ -452,6 +471,8 @@ func fanout(w *World, t *Tape, inst *Instance) {
 }
 
 // buildOne draws one creation request and checks the result.
+//
+//go:norace
 func (c *spendCtx) buildOne(t *Tape, class string) {
 	w, inst := c.w, c.inst
 	var addrs []string
@@ -756,6 +777,7 @@ func (c *spendCtx) buildOne(t *Tape, class string) {
 	}
 }
 
+//go:norace
 func (c *spendCtx) ownHash(t *Tape) [32]byte {
 	var h [32]byte
 	ia := c.ws.Issued[t.Int(len(c.ws.Issued))]
@@ -766,6 +788,8 @@ func (c *spendCtx) ownHash(t *Tape) [32]byte {
 // signOne builds a transaction over wallet coins by hand (confirmed or pending
 // parents, any class that consensus lets the next block spend), signs it with
 // the right and with wrong passphrases and checks C03.
+//
+//go:norace
 func (c *spendCtx) signOne(t *Tape, class string) {
 	w, inst := c.w, c.inst
 	type src struct {
